@@ -18,8 +18,9 @@ import contextlib
 import io
 import os
 
-from mc import battery, env, fsparse, par, schedx, seqx, world
+from mc import battery, env, fsparse, hclasses, par, schedx, seqx, world
 from mc.battery import Exc, call, p64
+from mc.refmodel import Z64
 
 MOD = 'checks.c17_copy'
 KINDS = ['new', 'new2', 'mod', 'mod2', 'big', 'meta', 'empty', 'del', 'undo',
@@ -143,6 +144,28 @@ def node(w, hist, cfg, res):
                     compare(tag + '-reopened', dest)
             finally:
                 dest.close()
+        # a copy taken while the source has voted one more transaction,
+        # which is then aborted: it is not part of the source
+        n += 1
+        t = world.TMD(b'voter', b'voted, never finished')
+        env.CLOCK.now += 1
+        r = call(lambda: (src.tpc_begin(t), src.store(
+            p64(0x77), Z64, hclasses.mkrec('P', 77), '', t),
+            src.tpc_vote(t)))
+        if isinstance(r, Exc):
+            call(src.tpc_abort, t)
+            bad('copy', 'during-vote:source:%s' % r.name, dict(got=repr(r)))
+        else:
+            dest = FS()(os.path.join(d, 'voted.fs'))
+            try:
+                r = call(dest.copyTransactionsFrom, src)
+                if isinstance(r, Exc):
+                    bad('copy', 'during-vote:%s' % r.name, dict(got=repr(r)))
+                else:
+                    compare('during-vote', dest)
+            finally:
+                dest.close()
+                call(src.tpc_abort, t)
         # piecewise through iterator(start, stop) at every boundary pair
         bs = [None] + tids
         for i, a in enumerate(tids):
